@@ -91,7 +91,7 @@ def gen_value(t, depth=2):
     if depth > 0 and k < 2:
         return [gen_value(t, depth - 1) for _ in range(t.draw(4, "val.n"))]
     if depth > 0 and k < 5:
-        return {t.pick([b"A", b"B", b"S", b"T", b"Title"], "val.key"): gen_value(t, depth - 1) for _ in range(t.rint(1, 3, "val.dn"))}
+        return {t.pick([b"A", b"B", b"S", b"T", b"Title", b"Contents", b"Contents", b"Cert", b"ID"], "val.key"): gen_value(t, depth - 1) for _ in range(t.rint(1, 3, "val.dn"))}
     if k < 7:
         return Str(gen_bytes(t, "str"))
     if k == 7:
